@@ -128,6 +128,11 @@ def c14_cases(tier, rng):
                                     rrvs=rng.choice([None, 0, 1577934245, 4102444799]),
                                     rrvszone=rng.choice([0, 0, 7200, -18000, 19800, -34200, 50400])))
             cases.append(c.case())
+    # addresses with percent signs (the old "percent hack" routing syntax, percent-encoded tags), with and without options: they
+    # travel as they are — no call may treat a caller's string as a format
+    for addr in (b"50%%off@x.org", b"100%@x.org", b"user%example.org@relay.x.org", b"a%sb@x.org", b"%d%v%x@x.org", b"a%20b@x.org", b"%@x.org"):
+        for mo, ro in ((None, None), (dict(size=5), None), (None, dict(notify=[b"SUCCESS"])), (dict(), dict())):
+            c = E2E(); c.mail(addr, mo); c.rcpt(addr, ro); c.rcpt(b"r2-" + addr, None); cases.append(c.case())
     # every option subset
     fields_m = [("size", 12345), ("utf8", 1), ("ret", b"HDRS"), ("envid", rng.choice([b"id+1=x y", b"50%off %s %d%%", b"100%"])),
                 ("auth", rng.choice([b"u@d", b"100%user@d.org", b"a%sb@d"])), ("body", b"8BITMIME")]
